@@ -91,20 +91,26 @@ pub fn parse_arguments(to_parse: &str) -> Result<Vec<Unifiable>, String> {
             }
         }
         else {
+            // Brackets, parentheses and what is between them are not
+            // digits: (1)2 is not a number (as in parse_term()).
             if ch == '[' {
                 argument.push(ch);
+                has_non_digit = true;
                 square_depth += 1;
             }
             else if ch == ']' {
                 argument.push(ch);
+                has_non_digit = true;
                 square_depth -= 1;
             }
             else if ch == '(' {
                 argument.push(ch);
+                has_non_digit = true;
                 round_depth += 1;
             }
             else if ch == ')' {
                 argument.push(ch);
+                has_non_digit = true;
                 round_depth -= 1
             }
             else if round_depth == 0 && square_depth == 0 {
@@ -176,6 +182,7 @@ pub fn parse_arguments(to_parse: &str) -> Result<Vec<Unifiable>, String> {
             else {
                 // Must be between () or []. Just add character.
                 argument.push(ch);
+                has_non_digit = true;
             }
         } // not open_quote
 
